@@ -3,7 +3,7 @@
 from __future__ import annotations
 
 from .. import shared
-from ..core import Check
+from ..core import Check, Finding
 from ..repo import Repo
 from .opsprop import fill
 
@@ -34,6 +34,15 @@ def run(tier: str) -> Check:
     shared.analyse(check, repo)
     shared.allocation_sites(check, repo)
     shared.class_level_mutables(check, repo)
+    # the optimizer as a whole, evaluated on model grammars: nothing that was handed in is rewritten (sa/optsem.py)
+    from ..optsem import check_pipeline
+
+    n, bad = check_pipeline(repo, "src/pest/grammar/optimizer.py::Optimizer.optimize")
+    check.count("pipeline_model_grammars", n)
+    inplace = sorted({c for c, _ in bad if "in place" in c})
+    witness = next((m for c, m in bad if "in place" in c), "")
+    check.oblige("SHARED-WRITE", "src/pest/grammar/optimizer.py::Optimizer.optimize", f"on all {n} model grammars neither the caller's Rule objects nor the built-ins are rewritten" if not inplace else inplace[0], not inplace,
+                 finding=Finding("SHARED-WRITE", "src/pest/grammar/optimizer.py::Optimizer.optimize", inplace[0] if inplace else "", f"{inplace[0] if inplace else ''}: {witness}", {}))
     # generated module: per-call state
     from .. import modcheck, ops
 
